@@ -1109,13 +1109,10 @@ Qed.
 (* ExperimentResult.best_config                                             *)
 (* ======================================================================== *)
 
-Fixpoint cands (col : list cell) (i : nat) : list (nat * num) :=
+Fixpoint cands (m : mode) (col : list cell) (i : nat) : list (nat * num) :=
   match col with
   | [] => []
-  | c :: r => match cell_num c with
-              | Some x => (i, x) :: cands r (S i)
-              | None => cands r (S i)
-              end
+  | c :: r => (i, cell_fill m c) :: cands m r (S i)
   end.
 
 Definition best_step (m : mode) (b : option (nat * num)) (c : nat * num) : option (nat * num) :=
@@ -1125,11 +1122,11 @@ Definition best_step (m : mode) (b : option (nat * num)) (c : nat * num) : optio
   end.
 
 Lemma arg_best_fold m col : forall i best,
-  arg_best m col i best = fold_left (best_step m) (cands col i) best.
+  arg_best m col i best = fold_left (best_step m) (cands m col i) best.
 Proof.
   induction col as [|c col IH]; intros i best; [reflexivity|].
-  cbn [arg_best cands]. rewrite IH. destruct (cell_num c) as [x|]; [|reflexivity].
-  cbn [fold_left]. f_equal. unfold best_step. destruct best as [[j y]|]; reflexivity.
+  cbn [arg_best cands]. rewrite IH. cbn [fold_left]. f_equal.
+  unfold best_step. destruct best as [[j y]|]; reflexivity.
 Qed.
 
 Definition first_best (m : mode) (cs : list (nat * num)) (r : nat * num) : Prop :=
@@ -1163,66 +1160,65 @@ Proof.
       * split; [exact Hpre|]. intros c0 Hc0. apply in_app_or in Hc0. destruct Hc0 as [Hc0|[<-|[]]]; [apply Hpost; exact Hc0 | exact E].
 Qed.
 
-Lemma cands_not_nan col : forall i c, In c (cands col i) -> snd c <> NaN.
+Lemma cell_fill_not_nan m c : cell_fill m c <> NaN.
+Proof.
+  unfold cell_fill. destruct (cell_num c) as [x|] eqn:E.
+  - destruct c as [[| | |]| |]; cbn in E; congruence.
+  - destruct m; discriminate.
+Qed.
+
+Lemma cands_not_nan m col : forall i c, In c (cands m col i) -> snd c <> NaN.
 Proof.
   induction col as [|c0 col IH]; intros i c H; [contradiction|].
-  cbn [cands] in H. destruct (cell_num c0) as [x|] eqn:E.
-  - destruct H as [<-|H]; [|eapply IH; exact H]. cbn. destruct c0 as [[| | |]| |]; cbn in E; congruence.
-  - eapply IH; exact H.
+  cbn [cands] in H. destruct H as [<-|H]; [apply cell_fill_not_nan | eapply IH; exact H].
 Qed.
 
 Lemma arg_best_first m col :
   match arg_best m col 0 None with
-  | None => cands col 0 = []
-  | Some r => first_best m (cands col 0) r
+  | None => col = []
+  | Some r => first_best m (cands m col 0) r
   end.
 Proof.
-  rewrite arg_best_fold. destruct (cands col 0) as [|c cs] eqn:E; [reflexivity|].
-  cbn [fold_left best_step].
-  destruct (fold_best_some m cs [c] c) as (r & Hr & Hf).
-  - intros c0 H. apply (cands_not_nan col 0). rewrite E. exact H.
-  - exists [], []. split; [reflexivity|]. split; intros c0 [].
+  rewrite arg_best_fold. destruct col as [|c0 col]; [reflexivity|].
+  cbn [cands fold_left best_step].
+  destruct (fold_best_some m (cands m col 1) [(0%nat, cell_fill m c0)] (0%nat, cell_fill m c0)) as (r & Hr & Hf).
+  - intros c1 H. apply (cands_not_nan m (c0 :: col) 0). exact H.
+  - exists [], []. split; [reflexivity|]. split; intros c1 [].
   - rewrite Hr. exact Hf.
 Qed.
 
-Lemma cands_in col : forall i j x,
-  In (j, x) (cands col i) <-> exists k c, j = (i + k)%nat /\ nth_error col k = Some c /\ cell_num c = Some x.
+Lemma cands_in m col : forall i j x,
+  In (j, x) (cands m col i) <-> exists k c, j = (i + k)%nat /\ nth_error col k = Some c /\ x = cell_fill m c.
 Proof.
   induction col as [|c0 col IH]; intros i j x.
   - cbn. split; [intros [] | intros (k & c & _ & H & _); destruct k; discriminate].
   - cbn [cands]. split.
-    + intro H. destruct (cell_num c0) as [y|] eqn:E.
-      * destruct H as [H|H].
-        -- injection H as <- <-. exists 0%nat, c0. repeat split; [lia | exact E].
-        -- apply IH in H. destruct H as (k & c & -> & Hk & Hc). exists (S k), c. repeat split; [lia | exact Hk | exact Hc].
+    + intros [H|H].
+      * injection H as <- <-. exists 0%nat, c0. repeat split. lia.
       * apply IH in H. destruct H as (k & c & -> & Hk & Hc). exists (S k), c. repeat split; [lia | exact Hk | exact Hc].
     + intros (k & c & -> & Hk & Hc). destruct k as [|k].
-      * cbn in Hk. injection Hk as ->. rewrite Hc. left. f_equal. lia.
-      * cbn in Hk. assert (H : In ((S i + k)%nat, x) (cands col (S i))).
-        { apply IH. exists k, c. repeat split; assumption. }
-        replace (i + S k)%nat with (S i + k)%nat by lia.
-        destruct (cell_num c0); [right; exact H | exact H].
+      * cbn in Hk. injection Hk as ->. left. subst x. f_equal. lia.
+      * cbn in Hk. right. replace (i + S k)%nat with (S i + k)%nat by lia.
+        apply IH. exists k, c. repeat split; assumption.
 Qed.
 
-Lemma cands_lb col : forall i c, In c (cands col i) -> (i <= fst c)%nat.
+Lemma cands_lb m col : forall i c, In c (cands m col i) -> (i <= fst c)%nat.
 Proof.
   intros i [j x] H. apply cands_in in H. destruct H as (k & _ & -> & _). cbn. lia.
 Qed.
 
-Lemma cands_split col : forall i pre j x post, cands col i = pre ++ (j, x) :: post ->
+Lemma cands_split m col : forall i pre j x post, cands m col i = pre ++ (j, x) :: post ->
   (forall c, In c pre -> (fst c < j)%nat) /\ (forall c, In c post -> (j < fst c)%nat).
 Proof.
   induction col as [|c0 col IH]; intros i pre j x post H.
   - destruct pre; discriminate.
-  - cbn [cands] in H. destruct (cell_num c0) as [y|].
-    + destruct pre as [|p pre].
-      * cbn in H. injection H as <- <- <-. split; [intros c []|].
-        intros c Hc. apply cands_lb in Hc. lia.
-      * cbn in H. injection H as <- H. destruct (IH _ _ _ _ _ H) as [H1 H2]. split; [|exact H2].
-        intros c [<-|Hc]; [|apply H1; exact Hc]. cbn.
-        assert (Hj : In (j, x) (cands col (S i))) by (rewrite H; apply in_or_app; right; left; reflexivity).
-        apply cands_lb in Hj. cbn in Hj. lia.
-    + apply (IH _ _ _ _ _ H).
+  - cbn [cands] in H. destruct pre as [|p pre].
+    + cbn in H. injection H as <- _ <-. split; [intros c []|].
+      intros c Hc. apply cands_lb in Hc. lia.
+    + cbn in H. injection H as <- H. destruct (IH _ _ _ _ _ H) as [H1 H2]. split; [|exact H2].
+      intros c [<-|Hc]; [|apply H1; exact Hc]. cbn.
+      assert (Hj : In (j, x) (cands m col (S i))) by (rewrite H; apply in_or_app; right; left; reflexivity).
+      apply cands_lb in Hj. cbn in Hj. lia.
 Qed.
 
 Lemma nth_error_map_cell name (table : list dict) k c :
@@ -1250,11 +1246,14 @@ Qed.
 Theorem exp_best_spec names ms metric table :
   match exp_best_config names ms metric table with
   | EBest j cfg =>
-      exists name m x, metric_name_mode names ms metric = Some (name, m) /\
-        (j < length table)%nat /\ cell_num (cell_of name (nth j table [])) = Some x /\
+      exists name m, metric_name_mode names ms metric = Some (name, m) /\
+        (j < length table)%nat /\
         cfg = strip_st (nth j table []) /\
-        (forall j' x', (j' < length table)%nat -> cell_num (cell_of name (nth j' table [])) = Some x' ->
-                       better m x' x = false /\ ((j' < j)%nat -> better m x x' = true))
+        (exists j0, (j0 < length table)%nat /\ cell_num (cell_of name (nth j0 table [])) <> None) /\
+        (forall j', (j' < length table)%nat ->
+           better m (cell_fill m (cell_of name (nth j' table []))) (cell_fill m (cell_of name (nth j table []))) = false /\
+           ((j' < j)%nat ->
+            better m (cell_fill m (cell_of name (nth j table []))) (cell_fill m (cell_of name (nth j' table []))) = true))
   | EError =>
       metric_name_mode names ms metric = None \/
       exists name m, metric_name_mode names ms metric = Some (name, m) /\
@@ -1270,58 +1269,84 @@ Proof.
   - apply existsb_exists in Ex. destruct Ex as (c & Hc & Hobj). apply In_nth_error in Hc. destruct Hc as [j Hj].
     apply nth_error_map_cell in Hj. destruct Hj as [Hj ->]. exists name, m, j. repeat split; [exact Hj|].
     destruct (cell_of name (nth j table [])); try discriminate. reflexivity.
-  - pose proof (arg_best_first m col) as Hf. destruct (arg_best m col 0 None) as [[j x]|].
-    + destruct Hf as (pre & post & Hsplit & Hpre & Hpost).
-      assert (Hin : In (j, x) (cands col 0)) by (rewrite Hsplit; apply in_or_app; right; left; reflexivity).
-      apply cands_in in Hin. destruct Hin as (k & c & Hk & Hnth & Hc). cbn in Hk. subst k.
-      apply nth_error_map_cell in Hnth. destruct Hnth as [Hj ->].
-      exists name, m, x. repeat split; try assumption; try reflexivity.
-      * assert (Hin' : In (j', x') (cands col 0)).
-        { apply cands_in. exists j', (cell_of name (nth j' table [])). repeat split; [|exact H0].
-          apply nth_error_map_cell. split; [exact H | reflexivity]. }
-        rewrite Hsplit in Hin'. apply in_app_or in Hin'. destruct Hin' as [Hi|[Hi|Hi]].
-        -- apply better_asym. apply (Hpre _ Hi).
-        -- injection Hi as _ <-. apply better_irrefl.
-        -- apply (Hpost _ Hi).
-      * intro Hlt.
-        assert (Hin' : In (j', x') (cands col 0)).
-        { apply cands_in. exists j', (cell_of name (nth j' table [])). repeat split; [|exact H0].
-          apply nth_error_map_cell. split; [exact H | reflexivity]. }
-        destruct (cands_split _ _ _ _ _ _ Hsplit) as [Hs1 Hs2].
-        rewrite Hsplit in Hin'. apply in_app_or in Hin'. destruct Hin' as [Hi|[Hi|Hi]].
-        -- apply (Hpre _ Hi).
-        -- injection Hi as <- _. lia.
-        -- apply Hs2 in Hi. cbn in Hi. lia.
+  - destruct (forallb is_na col) eqn:Ena.
     + right. exists name, m. split; [reflexivity|]. intros j Hj.
-      destruct (cell_num (cell_of name (nth j table []))) as [x|] eqn:E; [|reflexivity]. exfalso.
-      assert (Hin : In (j, x) (cands col 0)).
-      { apply cands_in. exists j, (cell_of name (nth j table [])). repeat split; [|exact E].
-        apply nth_error_map_cell. split; [exact Hj | reflexivity]. }
-      rewrite Hf in Hin. exact Hin.
+      rewrite forallb_forall in Ena.
+      assert (Hin : In (cell_of name (nth j table [])) col).
+      { apply (nth_error_In col j). apply nth_error_map_cell. split; [exact Hj | reflexivity]. }
+      specialize (Ena _ Hin). unfold is_na in Ena. destruct (cell_num (cell_of name (nth j table []))); [discriminate | reflexivity].
+    + assert (Hreal : exists j0, (j0 < length table)%nat /\ cell_num (cell_of name (nth j0 table [])) <> None).
+      { destruct (forallb_forall is_na col) as [_ Hb].
+        destruct (existsb (fun c => negb (is_na c)) col) eqn:Ee.
+        - apply existsb_exists in Ee. destruct Ee as (c & Hc & Hn). apply In_nth_error in Hc. destruct Hc as [j0 Hj0].
+          apply nth_error_map_cell in Hj0. destruct Hj0 as [Hj0 ->]. exists j0. split; [exact Hj0|].
+          unfold is_na in Hn. destruct (cell_num (cell_of name (nth j0 table []))); [discriminate | discriminate].
+        - exfalso. rewrite Hb in Ena; [discriminate|]. intros c Hc.
+          destruct (is_na c) eqn:Ec; [reflexivity|]. exfalso.
+          rewrite <- not_true_iff_false in Ee. apply Ee. apply existsb_exists. exists c. split; [exact Hc|]. rewrite Ec. reflexivity. }
+      pose proof (arg_best_first m col) as Hf. destruct (arg_best m col 0 None) as [[j x]|].
+      * destruct Hf as (pre & post & Hsplit & Hpre & Hpost).
+        assert (Hin : In (j, x) (cands m col 0)) by (rewrite Hsplit; apply in_or_app; right; left; reflexivity).
+        apply cands_in in Hin. destruct Hin as (k & c & Hk & Hnth & Hc). cbn in Hk. subst k.
+        apply nth_error_map_cell in Hnth. destruct Hnth as [Hj ->]. subst x.
+        exists name, m. split; [reflexivity|]. split; [exact Hj|]. split; [reflexivity|]. split; [exact Hreal|].
+        intros j' Hj'.
+        assert (Hin' : In (j', cell_fill m (cell_of name (nth j' table []))) (cands m col 0)).
+        { apply cands_in. exists j', (cell_of name (nth j' table [])). repeat split.
+          apply nth_error_map_cell. split; [exact Hj' | reflexivity]. }
+        destruct (cands_split _ _ _ _ _ _ _ Hsplit) as [Hs1 Hs2].
+        rewrite Hsplit in Hin'. apply in_app_or in Hin'. split.
+        -- destruct Hin' as [Hi|[Hi|Hi]].
+           ++ apply better_asym. apply (Hpre _ Hi).
+           ++ injection Hi as _ <-. apply better_irrefl.
+           ++ apply (Hpost _ Hi).
+        -- intro Hlt. destruct Hin' as [Hi|[Hi|Hi]].
+           ++ apply (Hpre _ Hi).
+           ++ injection Hi as <- _. lia.
+           ++ apply Hs2 in Hi. cbn in Hi. lia.
+      * exfalso. destruct Hreal as (j0 & Hj0 & _). destruct table; [cbn in Hj0; lia | discriminate].
+Qed.
+
+Lemma cell_fill_real m c x : cell_num c = Some x -> cell_fill m c = x.
+Proof. unfold cell_fill. intros ->. reflexivity. Qed.
+
+Lemma exp_best_attains names ms metric table j cfg name m j0 x0 :
+  exp_best_config names ms metric table = EBest j cfg ->
+  metric_name_mode names ms metric = Some (name, m) ->
+  (j0 < length table)%nat -> cell_num (cell_of name (nth j0 table [])) = Some x0 ->
+  better m x0 (opt_dflt m) = true ->
+  exists x, cell_num (cell_of name (nth j table [])) = Some x /\
+    forall j' x', (j' < length table)%nat -> cell_num (cell_of name (nth j' table [])) = Some x' ->
+                  better m x' x = false.
+Proof.
+  intros He Hm Hj0 Hx0 Hb. pose proof (exp_best_spec names ms metric table) as H. rewrite He in H.
+  destruct H as (name' & m' & Hm' & Hj & _ & _ & Hall). rewrite Hm in Hm'. injection Hm' as <- <-.
+  destruct (cell_num (cell_of name (nth j table []))) as [x|] eqn:E.
+  - exists x. split; [reflexivity|]. intros j' x' Hj' Hx'. destruct (Hall j' Hj') as [H1 _].
+    rewrite (cell_fill_real _ _ _ Hx'), (cell_fill_real _ _ _ E) in H1. exact H1.
+  - exfalso. destruct (Hall j0 Hj0) as [H1 _]. rewrite (cell_fill_real _ _ _ Hx0) in H1.
+    unfold cell_fill in H1. rewrite E in H1. unfold opt_dflt in Hb. destruct m; congruence.
 Qed.
 
 (* ======================================================================== *)
 (* the summary printed at the end of Tuner.run()                            *)
 (* ======================================================================== *)
 
-Lemma final_summary_one_mode name names m ts :
-  tuner_final_summary (name :: names) (OneMode m) ts = print_best ts name m.
-Proof. reflexivity. Qed.
-
-(* With a LIST of modes (any scheduler with several metrics) the summary reads the
-   list as "max": three trials reporting loss 9/10, 1/10, 1/2, modes [min; min] ->
-   the summary names trial 0 with 9/10 although trial 1 reported 1/10. *)
-Lemma final_summary_mode_list_wrong :
-  exists (names : list key) (ms : modes) (history : list (list Z * list (Z * dict))) name t v t' x,
-    metric_name_mode names ms (ByIndex 0) = Some (name, Min) /\
-    tuner_final_summary names ms (ts_run history) = Some (t, v) /\
-    In x (counted name (of_trial t' (handed history))) /\
-    better Min x v = true.
+(* it is print_best_metric_found for the first metric WITH THAT METRIC'S MODE *)
+Lemma final_summary_spec names ms ts r :
+  tuner_final_summary names ms ts = Some r ->
+  exists name m, metric_name_mode names ms (ByIndex 0) = Some (name, m) /\ print_best ts name m = Some r.
 Proof.
-  exists [KUser 0; KUser 1], (ModeList [Min; Min]),
-         [ ([0%Z], [(0%Z, [(KUser 0, VNum (Fin (9#10))); (KUser 1, VNum (Fin 0))])]);
-           ([1%Z], [(1%Z, [(KUser 0, VNum (Fin (1#10))); (KUser 1, VNum (Fin 10))])]);
-           ([2%Z], [(2%Z, [(KUser 0, VNum (Fin (1#2))); (KUser 1, VNum (Fin 20))])]) ],
-         (KUser 0), 0%Z, (Fin (9#10)), 1%Z, (Fin (1#10)).
-  vm_compute. repeat split. left. reflexivity.
+  unfold tuner_final_summary. destruct names as [|name names]; [discriminate|].
+  destruct (summary_mode ms) as [m|] eqn:E; [|discriminate].
+  intro H. exists name, m. split; [|exact H].
+  unfold metric_name_mode. cbn. destruct ms as [m'|[|m' l]]; cbn in E; try discriminate; injection E as ->; reflexivity.
+Qed.
+
+Lemma final_summary_defined name names ms m ts :
+  metric_name_mode (name :: names) ms (ByIndex 0) = Some (name, m) ->
+  tuner_final_summary (name :: names) ms ts = print_best ts name m.
+Proof.
+  unfold metric_name_mode, tuner_final_summary. cbn.
+  destruct ms as [m'|[|m' l]]; cbn; intro H; try discriminate; injection H as ->; reflexivity.
 Qed.
